@@ -31,6 +31,7 @@ def get():
     _STATE["fs"] = fs
     _STATE["flog"] = seams.FinalizerLog(fs)
     _STATE["preempt"] = seams.LinePreempt(here)
+    _STATE["probes"] = seams.ReachProbes(fs)
     _STATE["dir"] = here
     import gc
     import pandas, scipy.optimize, scipy.spatial, lmfit, PIL.Image  # noqa: F401  (everything a run may import)
@@ -50,11 +51,16 @@ def reset_between_runs():
 def run(trace, collect_states=False):
     st = get()
     reset_between_runs()
+    st["probes"].reset()
     if trace["kind"] == "mesh":
         from . import meshworld
-        return meshworld.run_trace(st["fs"], trace, st["flog"], st["preempt"], collect_states)
-    from . import solverworld
-    return solverworld.run_trace(st["fs"], trace, st["flog"], st["preempt"], collect_states)
+        res = meshworld.run_trace(st["fs"], trace, st["flog"], st["preempt"], collect_states)
+    else:
+        from . import solverworld
+        res = solverworld.run_trace(st["fs"], trace, st["flog"], st["preempt"], collect_states)
+    for k, v in st["probes"].counts.items():
+        res["stats"]["probes"][k] = res["stats"]["probes"].get(k, 0) + v
+    return res
 
 
 def run_isolated(trace, collect_states=False, cap_s=240):
